@@ -165,6 +165,27 @@ def run_case(case, ctx, rep, pytrs):
                                 f"trs_to_dict(): tract #{k}: {why}",
                                 dedup='mutated|' + why[:30])
                             break
+                if len(text) % 4 == 1:
+                    # The same object parsed again under other settings, its
+                    # source tag re-assigned in between: position and origin
+                    # of every tract are those of the LAST parse.
+                    ctx.hit('reparse-traceable')
+                    d.parse(sec_colon_required=True)
+                    new_source = ('re-filed', len(text) % 7)
+                    d.source = new_source
+                    for kw2 in ({}, {'segment': True}, {'layout': 'copy_all'},
+                                {}):
+                        d.parse(**kw2)
+                        for k, t in enumerate(d.tracts):
+                            why = tract_problem(t, k, text, new_source)
+                            if why is not None:
+                                ctx.violation(
+                                    'tract-malformed', case,
+                                    f"after re-parsing the same object "
+                                    f"(sec_colon_required, then {kw2}; source "
+                                    f"re-assigned): tract #{k}: {why}",
+                                    dedup='reparse|' + why[:30])
+                                break
                 ctx.case([text, case['cfgtext'], kw, case['channel'],
                           case['init_layout']], nontrivial,
                          shape=case['family'].split(':')[0],
